@@ -368,14 +368,16 @@ package martian
 //@   ensures nArm == old(nArm) + 1
 //@ ghost var nSess int
 //@ ghost var nNow int
+//@ extern func time.Now
+//@   modifies nNow
+//@   ensures nNow == old(nNow) + 1
 //@ func (*Proxy).handleLoop
 //@   serves C01 C02 C04 C05 C07
 //@   modifies nSess, nNow
 //@   at call all of newSession after set nSess = nSess + 1
-//@   at call all of Now after set nNow = nNow + 1
 //@   loop 0 invariant nSess == old(nSess) + 1 && nNow - old(nNow) == nServe - old(nServe)
 //@   at call 0 of handle before assert[one-session-is-created-per-connection; C02 C05] nSess == old(nSess) + 1
-//@   at call 0 of SetDeadline before assert[every-deadline-comes-from-a-fresh-clock-reading; C01 C04] nNow - old(nNow) == nServe - old(nServe) + 1
+//@   at call 0 of handle before assert[every-exchange-gets-a-deadline-from-a-fresh-clock-reading; C01 C04] nNow - old(nNow) == nServe - old(nServe) + 1
 //@   noframe
 //@   modifies nArm, nServe
 //@   requires proxyReady(p) && conn != nil && !p.connsMu.held
